@@ -1,6 +1,7 @@
 import numpy as np
 
 from relsad.network.components import Bus, MicrogridMode
+from relsad.network.containers import SectionState
 from relsad.network.systems import PowerSystem, SubSystem, Transmission
 from relsad.Time import Time, TimeStamp, TimeUnit
 from relsad.topology.sub_systems import find_backup_lines_between_sub_systems
@@ -391,6 +392,10 @@ def reset_system(power_system: PowerSystem, save_flag: bool):
     power_system.reset_energy_shed_variables()
     for network in power_system.child_network_list:
         network.reset_energy_shed_variables()
+        # All sections are in service (before the switches are reset,
+        # a circuit breaker closes the disconnectors of a connected section)
+        for section in network.sections or []:
+            section.state = SectionState.CONNECTED
 
     for comp in power_system.comp_list:
         comp.reset_status(save_flag)
